@@ -42,10 +42,20 @@ package parser
 //@   ensures result1 == nil ==> node.pegRule == rule && result0 == node.up
 //@   ensures result1 != nil ==> result0 == nil && node.pegRule != rule
 
+// firstCap(n): the first capture (PegText node) in document order among n, its descendants and its later siblings.
+//@ ghost func firstCap(n *node32) *node32 { return ite(n == nil, nil, ite(n.pegRule == rulePegText, n, ite(firstCap(n.up) != nil, firstCap(n.up), firstCap(n.next)))) }
+//@ ghost func plainCap(p *parser, c *node32) bool { return forall j int :: c.begin <= j && j < c.end - 1 ==> p.buffer[j] != 92 }
+
+// pegText returns the text of the first capture in document order ("" iff there is none); without a backslash inside,
+// the text is exactly the captured runes.
 //@ func (p *parser) pegText(node *node32) string
 //@   requires p != nil && wfPEG(p)
-//@   loop 1 invariant wfPEG(p)
+//@   ensures firstCap(node) == nil ==> result == ""
+//@   ensures firstCap(node) != nil ==> result != ""
+//@   ensures firstCap(node) != nil && plainCap(p, firstCap(node)) ==> result == string(p.buffer[firstCap(node).begin:firstCap(node).end])
+//@   loop 1 invariant wfPEG(p) && firstCap(node) == firstCap(n)
 //@   loop 1.1 invariant n != nil && n.pegRule == rulePegText && n.begin <= i && i <= n.end
+//@   loop 1.1 invariant plainCap(p, n) ==> i <= n.end - 1 && len(runes) == i - n.begin && forall j int :: 0 <= j && j < len(runes) ==> runes[j] == p.buffer[n.begin + j]
 
 //@ func (p *parser) parseCppInclude(node *node32) (err error)
 //@   requires p != nil && node != nil && wfPEG(p)
